@@ -982,6 +982,30 @@ def interface_cases(ctx, rng, n):
             ctx.fail("%s with strip_exponent=True: %s" % (kind, complaint), dict(rec, complaint=complaint), key=key)
 
 
+def eval_cases(ctx, cases, chunk):
+    """every case's lhs evaluates (vm_compute) to None when model and code agree and to Some <model value>
+    otherwise; chunks are evaluated by parallel coqc runs (ctx.coq_eval), so a broken run costs no extra
+    evaluations.  Returns [(index, label, model value text)]."""
+    from concurrent.futures import ThreadPoolExecutor
+
+    def one(ci):
+        part = cases[ci: ci + chunk]
+        try:
+            outs = ctx.coq_eval(["Base", "Exponent"], [c[1] for c in part], prelude=PRELUDE, timeout=1200)
+        except Exception as ex:  # noqa
+            return [(ci + k, part[k][0], "coqc failed: %s" % (str(ex)[-1500:],)) for k in range(len(part))]
+        if len(outs) != len(part):
+            return [(ci + k, part[k][0], "unparsable coqc output") for k in range(len(part))]
+        return [(ci + k, part[k][0], o[:3000]) for k, o in enumerate(outs) if not o.startswith("None")]
+
+    failing = []
+    with ThreadPoolExecutor(max_workers=16) as ex:
+        for res in ex.map(one, range(0, len(cases), chunk)):
+            failing.extend(res)
+    ctx.coverage["correspondence"]["c19"] = {"cases": len(cases), "failing": len(failing)}
+    return failing
+
+
 PRELUDE = """
 Definition last_max (tr : list (xq * (xq * xq))) : xq := snd (snd (last tr (XNaN, (XNaN, XNaN)))).
 """
@@ -1000,8 +1024,7 @@ def run(ctx):
         run_case(ctx, ci, rng, cases, records)
     interface_cases(ctx, rng, ctx.n(150, 2000))
     ctx.log("generated %d correspondence cases" % len(cases))
-    failing = ctx.coq_cases("c19", ["Base", "Exponent"], cases, chunk=12 if ctx.quick else 40, prelude=PRELUDE,
-                            timeout=900)
+    failing = eval_cases(ctx, cases, chunk=10 if ctx.quick else 25)
     for idx, label, val in failing:
         rec = dict(records[idx]) if idx < len(records) else {}
         rec["model_value"] = val
